@@ -1,7 +1,802 @@
-//! C21 — not implemented yet.
-use vmon::report::Args;
+//! C21 — index result combination is sound; row-set masks are mathematical sets.
+//!
+//! Oracle: interval-set model (`ivset.rs`) for `RowIdTreeMap` and (allow, block) semantics for
+//! `RowIdMask`; `ScalarIndexExpr::evaluate` is driven with a mock loader whose leaves return chosen
+//! `SearchResult`s; the result must keep its guarantee w.r.t. the true set of the expression.
+use crate::c21_eval::*;
+use crate::c21_map::*;
+use crate::common::*;
+use crate::ivset::IvSet;
+use lance_core::utils::mask::RowIdTreeMap;
+use serde_json::json;
+use std::collections::BTreeSet;
+use std::sync::atomic::{AtomicBool, AtomicU64, Ordering};
+use std::sync::{Arc, Mutex};
+use vmon::prng::Rng;
+use vmon::report::{Args, Report, Tier};
 
-pub fn run(_args: &Args) -> i32 {
-    eprintln!("HARNESS-ERROR C21 not implemented");
-    2
+static HEAVY_LOCK: Mutex<()> = Mutex::new(());
+/// selftest: flip one bit of the observed evaluate() result before the oracle sees it
+static CORRUPT_EVAL: AtomicBool = AtomicBool::new(false);
+
+/// The small universe: 4 row addresses in 2 fragments (+ outside probes).
+#[derive(Clone, Debug)]
+struct Small {
+    fa: u32,
+    fb: u32,
+    u: [u64; 4],
+    outside: [u64; 3],
 }
+
+impl Small {
+    fn from_seed(seed: u64) -> Self {
+        let mut rng = Rng::for_case(seed, 0xC21);
+        let fa = *rng.pick(&[0u32, 0, 1, 5, 65_535, 0x7FFF_FFFF]);
+        let fb = if rng.bool() { fa + 1 } else { fa + 2 + rng.below(1000) as u32 };
+        let b1 = 1 + rng.below(100_000) as u32;
+        Self {
+            fa,
+            fb,
+            u: [addr(fa, 0), addr(fa, u32::MAX), addr(fb, 0), addr(fb, b1)],
+            outside: [addr(fa, 1), addr(fb, u32::MAX), addr(fb + 1, 0)],
+        }
+    }
+    /// subsets of the universe, optionally using full-fragment markers where a fragment's two
+    /// universe rows are both present (the marker then also covers the rest of the fragment)
+    fn pair(&self, bits: u8, fullmark: bool) -> Pair {
+        let mut p = Pair::new();
+        p.touched.insert(self.fa);
+        p.touched.insert(self.fb);
+        for (f, lo) in [(self.fa, 0u8), (self.fb, 2u8)] {
+            let part = (bits >> lo) & 3;
+            if fullmark && part == 3 {
+                p.real.insert_fragment(f);
+                p.model = p.model.union(&IvSet::fragment(f));
+                p.log.push(format!("insert_fragment({f})"));
+            } else {
+                for k in 0..2 {
+                    if part & (1 << k) != 0 {
+                        let a = self.u[(lo + k) as usize];
+                        p.real.insert(a);
+                        p.model.insert(a);
+                        p.log.push(format!("insert({a:#x})"));
+                    }
+                }
+            }
+        }
+        p
+    }
+    fn variants(&self) -> Vec<(u8, bool)> {
+        let mut v: Vec<(u8, bool)> = (0..16u8).map(|b| (b, false)).collect();
+        for b in 0..16u8 {
+            if b & 3 == 3 || (b >> 2) & 3 == 3 {
+                v.push((b, true));
+            }
+        }
+        v
+    }
+    fn bits_of(&self, f: impl Fn(u64) -> bool) -> u64 {
+        let mut r = 0;
+        for (i, a) in self.u.iter().enumerate() {
+            if f(*a) {
+                r |= 1 << i;
+            }
+        }
+        r
+    }
+}
+
+fn fail_witness(seed: u64, part: &str, detail: &str, extra: serde_json::Value) -> serde_json::Value {
+    json!({"seed": seed as i64, "part": part, "detail": detail, "input": extra})
+}
+
+/// IvSet (the model) against plain bit arithmetic on a 6-point universe: a disagreement is a
+/// harness error, never a violation.
+fn model_selfcheck() -> Result<(), String> {
+    let pts: [u64; 6] = [0, 1, 2, u32::MAX as u64, (1u64 << 32), u64::MAX];
+    let mk = |bits: u32| IvSet::from_points(pts.iter().enumerate().filter(|(i, _)| bits & (1 << i) != 0).map(|(_, p)| *p));
+    let bits_of = |s: &IvSet| {
+        let mut r = 0u32;
+        for (i, p) in pts.iter().enumerate() {
+            if s.contains(*p) {
+                r |= 1 << i;
+            }
+        }
+        r
+    };
+    for a in 0..64u32 {
+        let sa = mk(a);
+        if bits_of(&sa) != a || sa.card() != a.count_ones() as u128 {
+            return Err(format!("IvSet construction wrong for {a:b}"));
+        }
+        if bits_of(&sa.complement()) != !a & 63 || sa.complement().complement() != sa {
+            return Err(format!("IvSet complement wrong for {a:b}"));
+        }
+        for b in 0..64u32 {
+            let sb = mk(b);
+            if sa.union(&sb) != mk(a | b) || sa.intersect(&sb) != mk(a & b) || sa.minus(&sb) != mk(a & !b) {
+                return Err(format!("IvSet binary op wrong for {a:b},{b:b}"));
+            }
+        }
+    }
+    Ok(())
+}
+
+// ------------------------------------------------------------------------------------------
+
+fn exhaustive_maps(report: &Report, sink: &Sink, small: &Small, heavy_cap: usize) {
+    let vars = small.variants();
+    let mut heavy_done = 0usize;
+    let mut ops = 0u64;
+    for (xb, xf) in &vars {
+        let x = small.pair(*xb, *xf);
+        if let Err((c, d)) = x.check("small-set").and_then(|_| check_serde(&x)) {
+            sink.violation_lazy(&format!("treemap:{c}"), &d, || {
+                fail_witness(report.seed, "exhaustive-maps", &d, json!({"set": x.log, "universe": format!("{small:?}")}))
+            });
+        }
+        for (yb, yf) in &vars {
+            let y = small.pair(*yb, *yf);
+            let heavy = sub_is_heavy(&x, &y) && heavy_done < heavy_cap;
+            let _g = if heavy {
+                heavy_done += 1;
+                Some(HEAVY_LOCK.lock().unwrap())
+            } else {
+                None
+            };
+            match guarded(|| check_binary(&x, &y, heavy)) {
+                Ok(Ok(n)) => ops += n,
+                Ok(Err((c, d))) => sink.violation_lazy(&format!("treemap:{c}"), &d, || {
+                    fail_witness(report.seed, "exhaustive-maps", &d, json!({"a": x.log, "b": y.log, "universe": format!("{small:?}")}))
+                }),
+                Err(p) => sink.violation_lazy("treemap:panic-in-set-operation", &p, || {
+                    fail_witness(report.seed, "exhaustive-maps", &p, json!({"a": x.log, "b": y.log}))
+                }),
+            }
+            let nt = *xb != 0 && *yb != 0;
+            report.case(nt.then(|| hash_of(&("maps", xb, xf, yb, yf))));
+        }
+    }
+    report.count("small_universe_map_ops_checked", ops);
+    report.count("heavy_full_fragment_ops", heavy_done as u64);
+}
+
+fn exhaustive_masks(report: &Report, sink: &Sink, small: &Small) {
+    let vars = small.variants();
+    // list options: None + every variant
+    let lists: Vec<Option<Pair>> = std::iter::once(None)
+        .chain(vars.iter().map(|(b, f)| Some(small.pair(*b, *f))))
+        .collect();
+    let masks: Vec<(usize, usize, MaskPair)> = (0..lists.len())
+        .flat_map(|a| (0..lists.len()).map(move |b| (a, b)))
+        .map(|(a, b)| (a, b, MaskPair::new(lists[a].as_ref(), lists[b].as_ref())))
+        .collect();
+    let extras: Vec<Pair> = vars.iter().map(|(b, f)| small.pair(*b, *f)).collect();
+    let ops = AtomicU64::new(0);
+    let pools = Pools { frags: vec![small.fa, small.fb] };
+    fan_out(n_threads(), 0, masks.len() as u64, &|| true, &|i| {
+        let (ai, bi, a) = &masks[i as usize];
+        let mut rng = Rng::for_case(report.seed, 0x21_0000 + i);
+        let wit = |d: &str, other: Option<&(usize, usize, MaskPair)>, extra: Option<&Pair>| {
+            json!({"seed": report.seed as i64, "part": "exhaustive-masks", "detail": d,
+                "universe": format!("{small:?}"),
+                "a": {"allow": lists[*ai].as_ref().map(|p| p.log.clone()), "block": lists[*bi].as_ref().map(|p| p.log.clone())},
+                "b": other.map(|(x, y, _)| json!({"allow": lists[*x].as_ref().map(|p| p.log.clone()), "block": lists[*y].as_ref().map(|p| p.log.clone())})),
+                "extra_set": extra.map(|p| p.log.clone())})
+        };
+        match guarded(|| check_mask_unary(a, &mut rng, &pools)) {
+            Ok(Ok(())) => {}
+            Ok(Err((c, d))) => sink.violation_lazy(&format!("mask:{c}"), &d, || wit(&d, None, None)),
+            Err(p) => sink.violation_lazy("mask:panic-in-unary-operation", &p, || wit(&p, None, None)),
+        }
+        let mut sigs = vec![];
+        let mut n = 0u64;
+        for (j, other) in masks.iter().enumerate() {
+            let extra = &extras[(i as usize + j) % extras.len()];
+            match guarded(|| check_mask_ops(a, &other.2, extra, false)) {
+                Ok(Ok(k)) => n += k,
+                Ok(Err((c, d))) => sink.violation_lazy(&format!("mask:{c}"), &d, || wit(&d, Some(other), Some(extra))),
+                Err(p) => sink.violation_lazy("mask:panic-in-mask-operation", &p, || wit(&p, Some(other), Some(extra))),
+            }
+            let nt = (*ai != 0 || *bi != 0) && (other.0 != 0 || other.1 != 0);
+            if nt {
+                sigs.push(hash_of(&("masks", ai, bi, other.0, other.1)));
+            }
+        }
+        report.cases(masks.len() as u64);
+        for s in sigs {
+            report.nontrivial(s);
+        }
+        ops.fetch_add(n, Ordering::Relaxed);
+    });
+    report.count("small_universe_mask_ops_checked", ops.load(Ordering::Relaxed));
+    report.count("small_universe_masks", masks.len() as u64);
+}
+
+/// X candidates (true match sets) consistent with a leaf's kind and returned set R over 4 rows.
+fn consistent_truths(kind: u8, r: u64) -> Vec<u64> {
+    match kind {
+        EXACT => vec![r],
+        AT_MOST => (0..16u64).filter(|x| x & !r == 0).collect(),
+        _ => (0..16u64).filter(|x| r & !x == 0).collect(),
+    }
+}
+
+fn exhaustive_evaluate(report: &Report, sink: &Sink, small: &Small, stop: &(dyn Fn() -> bool + Sync)) -> bool {
+    let shapes = all_shapes(3, 3);
+    // leaf row sets for both representations
+    let sets: Vec<Vec<RowIdTreeMap>> = [false, true]
+        .iter()
+        .map(|fm| (0..16u8).map(|b| small.pair(b, *fm).real).collect())
+        .collect();
+    // work units: (shape, kinds, representation)
+    let mut units = vec![];
+    for (si, s) in shapes.iter().enumerate() {
+        let n = s.leaves();
+        for kinds in 0..3usize.pow(n as u32) {
+            for fm in 0..2usize {
+                units.push((si, kinds, fm));
+            }
+        }
+    }
+    let evals = AtomicU64::new(0);
+    let checks = AtomicU64::new(0);
+    let broken = AtomicU64::new(0);
+    let sampled = AtomicBool::new(false);
+    let done = fan_out(n_threads(), 0, units.len() as u64, &|| !stop(), &|ui| {
+        let (si, kinds_code, fm) = units[ui as usize];
+        let shape = &shapes[si];
+        let n = shape.leaves();
+        let kinds: Vec<u8> = (0..n).map(|l| ((kinds_code / 3usize.pow(l as u32)) % 3) as u8).collect();
+        let expr = shape.to_expr();
+        let index = Arc::new(MockIndex::default());
+        let loader = MockLoader { index: index.clone() };
+        let mut sigs = Vec::with_capacity(16usize.pow(n as u32));
+        let (mut ev, mut ck, mut br) = (0u64, 0u64, 0u64);
+        for rcode in 0..16usize.pow(n as u32) {
+            let rs: Vec<u64> = (0..n).map(|l| ((rcode >> (4 * l)) & 15) as u64).collect();
+            {
+                let mut g = index.leaves.write().unwrap();
+                g.clear();
+                for l in 0..n {
+                    g.push((kinds[l], sets[fm][rs[l] as usize].clone()));
+                }
+            }
+            let res = guarded(|| run_evaluate(&expr, &loader));
+            ev += 1;
+            let (kind, mask) = match res {
+                Ok(Ok(x)) => x,
+                Ok(Err(e)) => {
+                    sink.violation_lazy("evaluate:error-on-accepted-expression", &e, || {
+                        json!({"seed": report.seed as i64, "expr": shape.text(), "kinds": kinds, "returned_sets": rs})
+                    });
+                    continue;
+                }
+                Err(p) => {
+                    sink.violation_lazy("evaluate:panic", &p, || {
+                        json!({"seed": report.seed as i64, "expr": shape.text(), "kinds": kinds, "returned_sets": rs})
+                    });
+                    continue;
+                }
+            };
+            let mut r = small.bits_of(|a| obs_selected(&mask, a));
+            if CORRUPT_EVAL.load(Ordering::Relaxed) && rcode == 5 {
+                r ^= 1;
+            }
+            // all true sets consistent with what the leaves promised
+            let cands: Vec<Vec<u64>> = (0..n).map(|l| consistent_truths(kinds[l], rs[l])).collect();
+            let mut idx = vec![0usize; n];
+            let mut xs = vec![0u64; n];
+            let mut bad: Option<(&'static str, Vec<u64>, u64)> = None;
+            'prod: loop {
+                for l in 0..n {
+                    xs[l] = cands[l][idx[l]];
+                }
+                let t = shape.truth_bits(&xs, &mut 0, 0xF);
+                ck += 1;
+                if let Some(c) = guarantee_broken(kind, r, t) {
+                    bad = Some((c, xs.clone(), t));
+                    break 'prod;
+                }
+                let mut l = 0;
+                loop {
+                    if l == n {
+                        break 'prod;
+                    }
+                    idx[l] += 1;
+                    if idx[l] < cands[l].len() {
+                        break;
+                    }
+                    idx[l] = 0;
+                    l += 1;
+                }
+            }
+            if let Some((class, xs, t)) = bad {
+                br += 1;
+                let two = negates_two_list_mask(&expr, &loader);
+                let sig = format!(
+                    "evaluate:{}-guarantee-broken:{}:{}",
+                    KIND_NAMES[kind as usize],
+                    class,
+                    if two { "tree-negates-mask-with-allow-and-block-list" } else { "no-two-list-negation" }
+                );
+                let what = format!(
+                    "{} with leaves {:?} claims {} but selects rows {:04b} while the true matches are {:04b}",
+                    shape.text(),
+                    kinds.iter().map(|k| KIND_NAMES[*k as usize]).collect::<Vec<_>>(),
+                    KIND_NAMES[kind as usize],
+                    r,
+                    t
+                );
+                sink.violation_lazy(&sig, &what, || {
+                    json!({"seed": report.seed as i64, "part": "exhaustive-evaluate", "expr": shape.text(),
+                        "universe_addresses": small.u, "full_fragment_markers": fm == 1,
+                        "leaf_kinds": kinds.iter().map(|k| KIND_NAMES[*k as usize]).collect::<Vec<_>>(),
+                        "leaf_returned_sets_bits": rs, "leaf_true_sets_bits": xs,
+                        "result_kind": KIND_NAMES[kind as usize], "result_selected_bits": r, "true_bits": t,
+                        "result_mask": format!("{mask:?}")})
+                });
+            }
+            if shape.has_op() && r != 0 && r != 0xF {
+                sigs.push(hash_of(&("eval", si, kinds_code, fm, rcode)));
+            }
+            if !sampled.load(Ordering::Relaxed) && shape.leaves() == 3 && rcode == 0x3A5 && !sampled.swap(true, Ordering::Relaxed) {
+                report.sample(json!({"part": "exhaustive-evaluate", "expr": shape.text(),
+                    "leaf_kinds": kinds.iter().map(|k| KIND_NAMES[*k as usize]).collect::<Vec<_>>(),
+                    "leaf_returned_sets_bits": rs, "result_kind": KIND_NAMES[kind as usize], "result_selected_bits": r}));
+            }
+        }
+        report.cases(ev);
+        for s in sigs {
+            report.nontrivial(s);
+        }
+        evals.fetch_add(ev, Ordering::Relaxed);
+        checks.fetch_add(ck, Ordering::Relaxed);
+        broken.fetch_add(br, Ordering::Relaxed);
+    });
+    report.count("evaluate_calls_small_universe", evals.load(Ordering::Relaxed));
+    report.count("evaluate_truth_assignments_checked", checks.load(Ordering::Relaxed));
+    report.count("evaluate_cases_with_broken_guarantee", broken.load(Ordering::Relaxed));
+    report.set("evaluate_tree_shapes", json!(shapes.len()));
+    done == units.len() as u64
+}
+
+// ------------------------------------------------------------------------------------------
+// random large cases
+
+fn random_map_case(report: &Report, sink: &Sink, i: u64) {
+    let mut rng = Rng::for_case(report.seed, i);
+    let heavy = i % 500 == 499;
+    let _g = if heavy { Some(HEAVY_LOCK.lock().unwrap()) } else { None };
+    let pools = Pools::gen(&mut rng);
+    let max_ops = if heavy { 6 } else { 30 };
+    let mut logs: Vec<Vec<String>> = vec![];
+    let r = guarded(|| -> Result<(Option<u64>, u64), Fail> {
+        let mut ps = vec![];
+        for _ in 0..3 {
+            match gen_pair(&pools, &mut rng, max_ops, heavy) {
+                Ok(p) => {
+                    logs.push(p.log.clone());
+                    ps.push(p)
+                }
+                Err((e, log)) => {
+                    logs.push(log);
+                    return Err(e);
+                }
+            }
+        }
+        let (a, b, c) = (&ps[0], &ps[1], &ps[2]);
+        let mut n = check_binary(a, b, heavy)?;
+        check_serde(a)?;
+        check_serde(c)?;
+        // From<Range>, FromIterator
+        let pick = |rng: &mut Rng, x: &Pair, y: &Pair| match rng.below(3) {
+            0 => None,
+            1 => Some(x.clone()),
+            _ => Some(y.clone()),
+        };
+        let m1 = MaskPair::new(pick(&mut rng, a, c).as_ref(), pick(&mut rng, b, c).as_ref());
+        let m2 = MaskPair::new(pick(&mut rng, b, a).as_ref(), pick(&mut rng, c, a).as_ref());
+        check_mask_unary(&m1, &mut rng, &pools)?;
+        n += check_mask_ops(&m1, &m2, c, heavy)?;
+        n += check_mask_ops(&m2, &m1, b, heavy)?;
+        let nt = !a.model.is_empty() && !b.model.is_empty();
+        Ok((nt.then(|| hash_of(&(&a.model, &b.model, &c.model))), n))
+    });
+    match r {
+        Ok(Ok((sig, n))) => {
+            report.case(sig);
+            report.count("random_set_ops_checked", n);
+            if heavy {
+                report.count("heavy_random_cases", 1);
+            }
+            if i % 997 == 3 && report.want_sample() {
+                report.sample(json!({"part": "random-maps", "case": i, "a_ops": logs.first(), "pools": pools.frags}));
+            }
+        }
+        Ok(Err((c, d))) => {
+            report.case(None);
+            let part = if c.starts_with("mask") || c.starts_with("treemap-mask") { "" } else { "treemap:" };
+            sink.violation_lazy(&format!("{part}{c}"), &d, || {
+                json!({"seed": report.seed as i64, "part": "random-maps", "case": i, "detail": d, "op_logs": logs, "fragment_pool": pools.frags})
+            });
+        }
+        Err(p) => {
+            report.case(None);
+            sink.violation_lazy("treemap:panic-in-random-ops", &p, || {
+                json!({"seed": report.seed as i64, "part": "random-maps", "case": i, "panic": p, "op_logs": logs, "fragment_pool": pools.frags})
+            });
+        }
+    }
+}
+
+// bit vectors over a larger universe
+type Bv = Vec<u64>;
+fn bv_get(b: &Bv, i: usize) -> bool {
+    b[i / 64] >> (i % 64) & 1 == 1
+}
+fn bv_set(b: &mut Bv, i: usize) {
+    b[i / 64] |= 1 << (i % 64);
+}
+fn truth_bv(s: &Shape, xs: &[Bv], next: &mut usize, full: &Bv) -> Bv {
+    match s {
+        Shape::Leaf => {
+            let v = xs[*next].clone();
+            *next += 1;
+            v
+        }
+        Shape::Not(a) => truth_bv(a, xs, next, full).iter().zip(full).map(|(x, f)| !x & f).collect(),
+        Shape::And(a, b) => {
+            let l = truth_bv(a, xs, next, full);
+            let r = truth_bv(b, xs, next, full);
+            l.iter().zip(&r).map(|(x, y)| x & y).collect()
+        }
+        Shape::Or(a, b) => {
+            let l = truth_bv(a, xs, next, full);
+            let r = truth_bv(b, xs, next, full);
+            l.iter().zip(&r).map(|(x, y)| x | y).collect()
+        }
+    }
+}
+
+fn random_shape(rng: &mut Rng, depth: usize, leaves_left: &mut usize) -> Shape {
+    if depth <= 1 || *leaves_left <= 1 || rng.chance(1, 5) {
+        *leaves_left = leaves_left.saturating_sub(1);
+        return Shape::Leaf;
+    }
+    match rng.below(5) {
+        0 | 1 => Shape::Not(Box::new(random_shape(rng, depth - 1, leaves_left))),
+        2 | 3 => {
+            let a = random_shape(rng, depth - 1, leaves_left);
+            let b = random_shape(rng, depth - 1, leaves_left);
+            Shape::And(Box::new(a), Box::new(b))
+        }
+        _ => {
+            let a = random_shape(rng, depth - 1, leaves_left);
+            let b = random_shape(rng, depth - 1, leaves_left);
+            Shape::Or(Box::new(a), Box::new(b))
+        }
+    }
+}
+
+fn random_eval_case(report: &Report, sink: &Sink, i: u64) {
+    let mut rng = Rng::for_case(report.seed, i);
+    // universe: 2..4 fragments, rows at the start of each fragment (+ a few far offsets)
+    let nf = rng.urange(2, 4);
+    let mut u: Vec<u64> = vec![];
+    let mut frag_rows: Vec<(u32, Vec<usize>)> = vec![];
+    let mut f = *rng.pick(&[0u32, 1, 100, 65_535]);
+    for _ in 0..nf {
+        let n = rng.urange(1, 300);
+        let mut idxs = vec![];
+        for o in 0..n {
+            idxs.push(u.len());
+            u.push(addr(f, o as u32));
+        }
+        if rng.chance(1, 3) {
+            idxs.push(u.len());
+            u.push(addr(f, u32::MAX));
+        }
+        frag_rows.push((f, idxs));
+        f += 1 + if rng.bool() { 0 } else { rng.below(50) as u32 };
+    }
+    let words = u.len().div_ceil(64);
+    let mut full: Bv = vec![0; words];
+    for k in 0..u.len() {
+        bv_set(&mut full, k);
+    }
+    let mut leaves_left = rng.urange(2, 8);
+    let max_depth = rng.urange(2, 6);
+    let shape = random_shape(&mut rng, max_depth, &mut leaves_left);
+    let n = shape.leaves();
+    let mut xs: Vec<Bv> = vec![];
+    let mut leafs = vec![];
+    let mut desc = vec![];
+    for _ in 0..n {
+        let kind = rng.below(3) as u8;
+        let dens = *rng.pick(&[0u64, 1, 10, 50, 90, 100]);
+        let mut x: Bv = vec![0; words];
+        let mut r: Bv = vec![0; words];
+        for k in 0..u.len() {
+            let in_x = rng.below(100) < dens;
+            if in_x {
+                bv_set(&mut x, k);
+            }
+            let in_r = match kind {
+                EXACT => in_x,
+                AT_MOST => in_x || rng.chance(1, 4),
+                _ => in_x && rng.chance(3, 4),
+            };
+            if in_r {
+                bv_set(&mut r, k);
+            }
+        }
+        let mut set = RowIdTreeMap::new();
+        let mut marks = 0;
+        for (f, idxs) in &frag_rows {
+            let all = idxs.iter().all(|k| bv_get(&r, *k));
+            if all && rng.bool() {
+                set.insert_fragment(*f);
+                marks += 1;
+            } else {
+                for k in idxs {
+                    if bv_get(&r, *k) {
+                        set.insert(u[*k]);
+                    }
+                }
+            }
+        }
+        desc.push(json!({"kind": KIND_NAMES[kind as usize], "density_pct": dens, "full_fragment_markers": marks}));
+        xs.push(x);
+        leafs.push((kind, set));
+    }
+    let index = Arc::new(MockIndex::default());
+    *index.leaves.write().unwrap() = leafs;
+    let loader = MockLoader { index };
+    let expr = shape.to_expr();
+    let (kind, mask) = match guarded(|| run_evaluate(&expr, &loader)) {
+        Ok(Ok(x)) => x,
+        Ok(Err(e)) => {
+            report.case(None);
+            sink.violation_lazy("evaluate:error-on-accepted-expression", &e, || json!({"seed": report.seed as i64, "case": i, "expr": shape.text()}));
+            return;
+        }
+        Err(p) => {
+            report.case(None);
+            sink.violation_lazy("evaluate:panic", &p, || json!({"seed": report.seed as i64, "case": i, "expr": shape.text()}));
+            return;
+        }
+    };
+    let t = truth_bv(&shape, &xs, &mut 0, &full);
+    let (mut missing, mut extra, mut sel) = (0u64, 0u64, 0u64);
+    let mut first_bad = None;
+    for k in 0..u.len() {
+        let s = obs_selected(&mask, u[k]);
+        let tt = bv_get(&t, k);
+        sel += s as u64;
+        if tt && !s {
+            missing += 1;
+            first_bad.get_or_insert(u[k]);
+        }
+        if s && !tt {
+            extra += 1;
+            first_bad.get_or_insert(u[k]);
+        }
+    }
+    let class = match kind {
+        EXACT => match (missing > 0, extra > 0) {
+            (false, false) => None,
+            (true, false) => Some("drops-matching-rows"),
+            (false, true) => Some("selects-non-matching-rows"),
+            _ => Some("drops-and-adds-rows"),
+        },
+        AT_MOST => (missing > 0).then_some("drops-matching-rows"),
+        _ => (extra > 0).then_some("selects-non-matching-rows"),
+    };
+    report.count("random_evaluate_rows_compared", u.len() as u64);
+    let nt = sel != 0 && sel != u.len() as u64;
+    report.case(nt.then(|| hash_of(&("reval", shape.text(), &xs))));
+    if i % 1009 == 5 && report.want_sample() {
+        report.sample(json!({"part": "random-evaluate", "case": i, "expr": shape.text(), "leaves": desc,
+            "universe_rows": u.len(), "result_kind": KIND_NAMES[kind as usize], "selected": sel}));
+    }
+    if let Some(class) = class {
+        let two = negates_two_list_mask(&expr, &loader);
+        let sig = format!(
+            "evaluate:{}-guarantee-broken:{}:{}",
+            KIND_NAMES[kind as usize],
+            class,
+            if two { "tree-negates-mask-with-allow-and-block-list" } else { "no-two-list-negation" }
+        );
+        let what = format!("{} claims {} but {missing} matching rows are dropped and {extra} non-matching rows selected of {}", shape.text(), KIND_NAMES[kind as usize], u.len());
+        sink.violation_lazy(&sig, &what, || {
+            json!({"seed": report.seed as i64, "part": "random-evaluate", "case": i, "expr": shape.text(), "leaves": desc,
+                "missing": missing, "extra": extra, "first_bad_address": first_bad, "result_mask_lists": [mask.allow_list.is_some(), mask.block_list.is_some()]})
+        });
+    }
+}
+
+// ------------------------------------------------------------------------------------------
+// child-process probes: calls that may not terminate are never made in the checking process
+
+fn probe_main(name: &str) -> i32 {
+    let mut m = RowIdTreeMap::new();
+    let (n, want): (u64, Vec<u64>) = match name {
+        "range_to_u64_max" => (m.insert_range(u64::MAX - 3..=u64::MAX), (u64::MAX - 3..=u64::MAX).collect()),
+        "range_in_last_fragment" => {
+            let lo = addr(u32::MAX, 10);
+            (m.insert_range(lo..lo + 5), (lo..lo + 5).collect())
+        }
+        "range_control" => {
+            let lo = addr(u32::MAX - 1, 10);
+            (m.insert_range(lo..lo + 5), (lo..lo + 5).collect())
+        }
+        _ => return 3,
+    };
+    let got: Option<Vec<u64>> = m.row_ids().map(|it| it.map(u64::from).collect());
+    if n == want.len() as u64 && got.as_ref() == Some(&want) {
+        println!("PROBE-OK");
+        0
+    } else {
+        println!("PROBE-MISMATCH count={n} got={:?}", got.map(|g| g.len()));
+        4
+    }
+}
+
+fn run_probe(name: &str) -> Result<String, String> {
+    let exe = std::env::current_exe().map_err(|e| e.to_string())?;
+    let cmd = format!("ulimit -v 3000000; exec '{}' C21 --probe {}", exe.display(), name);
+    let mut child = std::process::Command::new("sh")
+        .arg("-c")
+        .arg(cmd)
+        .stdout(std::process::Stdio::piped())
+        .stderr(std::process::Stdio::null())
+        .spawn()
+        .map_err(|e| e.to_string())?;
+    let start = std::time::Instant::now();
+    loop {
+        match child.try_wait() {
+            Ok(Some(st)) => {
+                let mut out = String::new();
+                if let Some(mut o) = child.stdout.take() {
+                    use std::io::Read;
+                    let _ = o.read_to_string(&mut out);
+                }
+                return Ok(if st.success() && out.contains("PROBE-OK") {
+                    "ok".into()
+                } else if out.contains("PROBE-MISMATCH") {
+                    format!("mismatch: {}", out.trim())
+                } else {
+                    format!("died: {st}")
+                });
+            }
+            Ok(None) => {
+                if start.elapsed().as_secs() >= 8 {
+                    let _ = child.kill();
+                    let _ = child.wait();
+                    return Ok("no-termination-within-8s".into());
+                }
+                std::thread::sleep(std::time::Duration::from_millis(20));
+            }
+            Err(e) => return Err(e.to_string()),
+        }
+    }
+}
+
+fn probes(report: &Report, sink: &Sink) {
+    match run_probe("range_control") {
+        Ok(s) if s == "ok" => {}
+        other => {
+            report.inconclusive(&format!("child probe mechanism unusable (control probe: {other:?})"));
+            return;
+        }
+    }
+    for name in ["range_to_u64_max", "range_in_last_fragment"] {
+        match run_probe(name) {
+            Ok(s) if s == "ok" => report.count("child_probes_ok", 1),
+            Ok(s) => {
+                let class = if s.starts_with("mismatch") { "wrong-content" } else { "does-not-terminate-or-exhausts-memory" };
+                sink.violation_lazy(
+                    &format!("treemap:insert_range:range-ending-in-fragment-u32max:{class}"),
+                    &format!("probe {name}: {s} (the control probe in fragment u32::MAX-1 returns at once)"),
+                    || json!({"probe": name, "outcome": s, "replay": format!("e_sets C21 --probe {name}")}),
+                );
+            }
+            Err(e) => report.inconclusive(&format!("probe {name}: {e}")),
+        }
+        report.case(Some(hash_of(&("probe", name))));
+    }
+}
+
+// ------------------------------------------------------------------------------------------
+
+fn selftest(args: &Args) -> i32 {
+    quiet_panics();
+    let small = Small::from_seed(args.seed);
+    let mut a = args.clone();
+    a.prop = "C21-selftest".into();
+    std::env::set_var("VERIF_EVIDENCE_OUT", "/dev/null");
+    let report = Report::new(&a, "exploration", "selftest", (60, 60));
+    let mut ok = true;
+    // 1. corrupted `selected` observation
+    let sink = Sink::collecting();
+    CORRUPT_SELECTED.store(small.u[1], Ordering::Relaxed);
+    exhaustive_masks(&report, &sink, &small);
+    CORRUPT_SELECTED.store(u64::MAX, Ordering::Relaxed);
+    let caught1 = sink.n_signatures() > 0;
+    println!("SELFTEST corrupted-selected caught={caught1}");
+    ok &= caught1;
+    // 2. corrupted evaluate result (one bit flipped for one leaf assignment per unit)
+    let base = Sink::collecting();
+    exhaustive_evaluate(&report, &base, &small, &|| false);
+    let sink = Sink::collecting();
+    CORRUPT_EVAL.store(true, Ordering::Relaxed);
+    exhaustive_evaluate(&report, &sink, &small, &|| false);
+    CORRUPT_EVAL.store(false, Ordering::Relaxed);
+    let new: Vec<String> = sink.signatures().into_iter().filter(|s| !base.signatures().contains(s)).collect();
+    println!("SELFTEST corrupted-evaluate new signatures={new:?}");
+    ok &= !new.is_empty();
+    // 3. model deviates from the real map by one element
+    let p = small.pair(0b0111, false);
+    let mut m = p.model.clone();
+    m.remove(small.u[2]);
+    let caught3 = check_map(&p.real, &m, &p.touched).is_err();
+    println!("SELFTEST map-vs-model-one-row caught={caught3}");
+    ok &= caught3;
+    if ok {
+        println!("SELFTEST C21 ok");
+        0
+    } else {
+        println!("SELFTEST C21 FAILED");
+        2
+    }
+}
+
+pub fn run(args: &Args) -> i32 {
+    if let Some(p) = args.extra.get("probe") {
+        return probe_main(p);
+    }
+    if is_selftest(args) {
+        return selftest(args);
+    }
+    quiet_panics();
+    let rule = "Enumerated completely: (a) all pairs of the 23 representations (explicit / full-fragment marker) of the 16 subsets of a 4-address, 2-fragment universe under |,&,- (+assign forms, union_all, extend, serde); (b) all 576x576 pairs of RowIdMask (allow,block in {None}+23) under !,&,|,also_block,also_allow,mask, arrow round trip, selected_indices, iter_ids; (c) ScalarIndexExpr::evaluate on ALL 29 tree shapes of depth<=3 with <=3 leaves x {Exact,AtMost,AtLeast}^leaves x 16^leaves returned sets x 2 representations, each checked against EVERY leaf truth assignment consistent with the leaf kinds. Plus seeded random large tree maps/masks (ranges at 2^32 boundaries, empty/reversed ranges, full-fragment markers) and random evaluate trees (depth<=6, <=8 leaves, <=1200 rows). A case is non-trivial when both operands are non-empty (sets/masks) or the expression has an operator and selects neither none nor all rows.";
+    let report = Report::new(args, "exploration", rule, (50, 600)).with_min_nontrivial(1000);
+    let sink = Sink::to_report(&report);
+    if let Err(e) = model_selfcheck() {
+        report.harness_error(&format!("interval-set model self check failed: {e}"));
+        return report.finish();
+    }
+    let small = Small::from_seed(args.seed);
+    report.set("small_universe", json!(format!("{small:?}")));
+    let heavy_cap = args.tier.pick(4, 200);
+    exhaustive_maps(&report, &sink, &small, heavy_cap);
+    exhaustive_masks(&report, &sink, &small);
+    let complete = exhaustive_evaluate(&report, &sink, &small, &|| !report.time_left());
+    report.exhaustive(complete);
+    if !complete {
+        report.inconclusive("exhaustive evaluate enumeration did not finish within the budget");
+    }
+    report.set("exhaustive_part_wall_s", json!(report.elapsed_s()));
+    probes(&report, &sink);
+    // random large cases until the budget ends
+    let max_cases: u64 = args.tier.pick(400_000, 20_000_000);
+    let threads = n_threads();
+    fan_out(threads, 1, max_cases, &|| report.time_left(), &|i| {
+        if i % 4 == 0 {
+            random_eval_case(&report, &sink, i);
+        } else {
+            random_map_case(&report, &sink, i);
+        }
+    });
+    if args.tier == Tier::Thorough {
+        report.assume("thorough tier runs all heavy (512 MB bitmap) full-fragment subtractions of the small universe");
+    }
+    report.assume("insert_bitmap is only applied to fragments that are not present (its only use in the repo)");
+    report.assume("ranges whose end lies in fragment u32::MAX are executed in a child process only (may not terminate)");
+    sink.flush();
+    report.finish()
+}
+
+#[allow(dead_code)]
+fn _unused(_: BTreeSet<u32>) {}
